@@ -235,9 +235,16 @@ impl<'a> PrettyPrinter<'a> {
 /// matrix row `a, b #f()`), so that a directly following semicolon would terminate that expression.
 fn is_ends_with_hashed_expr(node: &SyntaxNode) -> bool {
     let mut children = node.children();
-    let Some(last) = children.next_back() else {
+    let Some(mut last) = children.next_back() else {
         return false;
     };
+    if last.kind() == SyntaxKind::Semicolon {
+        // The terminator of the hashed expression itself; it may not be printed.
+        let Some(prev) = children.next_back() else {
+            return false;
+        };
+        last = prev;
+    }
     (last.is::<Expr>()
         && children
             .next_back()
